@@ -11,6 +11,7 @@ import (
 	"fmt"
 	"os"
 	"path/filepath"
+	"sort"
 	"strings"
 	"sync"
 	"time"
@@ -97,6 +98,7 @@ type Scen struct {
 	lastPeerMsg  []byte
 	lastPeerType messages.MessageType
 	prevBlind    string
+	clean        bool
 	prevPreimage string
 	steps        []stepRecord
 }
@@ -178,12 +180,6 @@ func (sc *Scen) worldTerm(d *swap.SwapData, suspAtStart bool) string {
 	if k := d.GetPrivkey(); k != nil {
 		own = hex.EncodeToString(k.PubKey().SerializeCompressed())
 	}
-	dec := []string{}
-	e.mu.Lock()
-	for k, v := range e.Decode {
-		dec = append(dec, CoqPair(CoqStr(k), CoqTuple(CoqStr(v.Hash), CoqZu(v.Msat), CoqZ(v.Cltv))))
-	}
-	e.mu.Unlock()
 	hashes := []string{}
 	seen := map[string]bool{}
 	addHash := func(p string) {
@@ -199,7 +195,7 @@ func (sc *Scen) worldTerm(d *swap.SwapData, suspAtStart bool) string {
 	parts := []string{
 		CoqBool(e.SwapsAllowed), CoqBool(e.LiquidEnabled), CoqBool(e.BitcoinEnabled), CoqZu(e.MinAmountMsat),
 		CoqBool(e.PeerAllowed), CoqBool(suspAtStart), CoqStr(asset), CoqStr(network), CoqZu(uint64(csv)),
-		prem, CoqStr(own), CoqList(dec), CoqList(hashes),
+		prem, CoqStr(own), CoqList(hashes),
 		mapList(s.Height, coqOptU32), mapList(s.Send, CoqBool), mapList(s.Store, CoqBool),
 		mapList(s.Pay, coqOptStr), mapList(s.RecoverPay, coqOptStr), mapList(s.PayFee, coqOptStr),
 		mapList(s.MkInvoice, coqOptStr), mapList(s.FeeEst, coqOptU64), mapList(s.Balance, coqOptU64),
@@ -412,7 +408,12 @@ func runFsm(o fsmOpts) error {
 			js = append(js, st.JS)
 			kinds = append(kinds, st.Kind)
 		}
-		term := fmt.Sprintf("mkScenario %s %s", tableName(sc.role), "[\n    "+strings.Join(steps, ";\n    ")+"]")
+		dec := []string{}
+		for k, v := range sc.env.Decode {
+			dec = append(dec, CoqPair(CoqStr(k), CoqTuple(CoqStr(v.Hash), CoqZu(v.Msat), CoqZ(v.Cltv))))
+		}
+		sort.Strings(dec)
+		term := fmt.Sprintf("mkScenario %s %s %s", tableName(sc.role), CoqList(dec), "[\n    "+strings.Join(steps, ";\n    ")+"]")
 		final := ""
 		if sc.held != nil {
 			final = string(sc.held.Current)
